@@ -1229,3 +1229,138 @@ Proof.
   - apply filter_ids_nodup. exact (i_ent_nd _ _ HI).
   - exists m'. rewrite H1. split; [reflexivity|exact H2].
 Qed.
+
+(** ---- one fan-out step ---- *)
+Lemma inv_fan_move : forall s m t tp d e rest pr pr',
+  Inv s m -> get_pc s t = PubFan tp d (e :: rest) pr ->
+  incl pr pr' ->
+  (e_topic e = tp -> closed_in s (e_chan e) -> In (e_id e) pr') ->
+  Inv (set_pc s t (PubFan tp d rest pr')) m.
+Proof.
+  intros s m t tp d e rest pr pr' HI Hpc Hinc Hcl.
+  set (p' := PubFan tp d rest pr').
+  set (X := set_pc s t p').
+  assert (Hpcs : pcs X = update (pcs s) t p') by reflexivity.
+  assert (Hsub : forall t' id tp' c, sub_pending X t' id tp' c <-> sub_pending s t' id tp' c).
+  { intros t' id tp' c. destruct (Z.eq_dec t t') as [<-|Hne].
+    - unfold sub_pending. rewrite (gp_eq _ s t p' Hpcs), Hpc. unfold p'. split; intros [H|H]; discriminate H.
+    - apply (subp_neq _ s t p' t' id tp' c Hpcs Hne). }
+  destruct (i_fan _ _ HI _ _ _ _ _ Hpc) as [Hnd [Hincl [Hnp Hnth]]].
+  assert (Hfan : forall t' tp' d' rest' pr1, get_pc X t' = PubFan tp' d' rest' pr1 ->
+            (t' = t /\ tp' = tp /\ d' = d /\ rest' = rest) \/ (t <> t' /\ get_pc s t' = PubFan tp' d' rest' pr1)).
+  { intros t' tp' d' rest' pr1 H. destruct (Z.eq_dec t t') as [<-|Hne].
+    - left. rewrite (gp_eq _ s t p' Hpcs) in H. unfold p' in H. inversion H. tauto.
+    - right. split; [exact Hne|]. rewrite (gp_neq _ s t p' t' Hpcs Hne) in H. exact H. }
+  constructor; try (unchanged HI).
+  - intro t'. cbn [lock X set_pc]. destruct (Z.eq_dec t t') as [<-|Hne].
+    + rewrite (gp_eq _ s t p' Hpcs). pose proof (i_lock _ _ HI t) as H. rewrite Hpc in H. exact H.
+    + rewrite (gp_neq _ s t p' t' Hpcs Hne). exact (i_lock _ _ HI t').
+  - intros t' id tp' c H. apply Hsub in H. exact (i_subp _ _ HI _ _ _ _ H).
+  - intros t1 t2 id tp1 c1 tp2 c2 H1 H2. apply Hsub in H1. apply Hsub in H2.
+    exact (i_subp_uniq _ _ HI _ _ _ _ _ _ _ H1 H2).
+  - intros t' tp' d' rest' pr1 H. destruct (Hfan _ _ _ _ _ H) as [[-> [-> [-> ->]]]|[Hne H1]].
+    + split; [cbn in Hnd; inversion Hnd; assumption|]. split; [|split; assumption].
+      intros x Hx. apply Hincl. right. exact Hx.
+    + exact (i_fan _ _ HI _ _ _ _ _ H1).
+  - intros t' tp' d' rest' pr1 H id Hin. destruct (Hfan _ _ _ _ _ H) as [[-> [-> [-> ->]]]|[Hne H1]].
+    + apply (i_fanq _ _ HI _ _ _ _ _ Hpc). cbn. right. exact Hin.
+    + exact (i_fanq _ _ HI _ _ _ _ _ H1 id Hin).
+  - intro t'. destruct (Z.eq_dec t t') as [<-|Hne].
+    + pose proof (i_pend _ _ HI t) as Hp. unfold pend_ok in *. rewrite (gp_eq _ s t p' Hpcs). rewrite Hpc in Hp. unfold p'.
+      destruct Hp as [p [Hp1 [Hp2 [Hp3 Hp4]]]]. exists p. split; [exact Hp1|]. split; [exact Hp2|]. split; [exact Hp3|].
+      intros id Hin. destruct (Hp4 id Hin) as [Hr [H|[H|[e0 [[<-|H1] [H2 [H3 H4]]]]]]]; split; try assumption.
+      * left. exact H.
+      * right. left. apply Hinc. exact H.
+      * right. left. subst id. apply Hcl; assumption.
+      * right. right. exists e0. tauto.
+    + refine (pend_ok_frame s m X m t' _ _ _ _ _ _ (i_pend _ _ HI t')); try reflexivity; try (intros; assumption); try lia.
+      apply (gp_neq _ s t p' t' Hpcs Hne).
+  - intros e0 He. destruct (i_ret_or_pend _ _ HI e0 He) as [H|[t' H]]; [left; exact H|].
+    right. exists t'. apply Hsub. exact H.
+  - intros id t' tp' c Hr H. apply Hsub in H. exact (i_ret_excl _ _ HI id t' tp' c Hr H).
+  - intros id n H. destruct (i_dead _ _ HI id n H) as [D1 [D2 D3]]. split; [exact D1|]. split; [|exact D3].
+    intros t' tp' c Hs. apply Hsub in Hs. exact (D2 t' tp' c Hs).
+Qed.
+
+Lemma inv_enqueue : forall s m t tp d rest pr e ch,
+  Inv s m -> get_pc s t = PubFan tp d rest pr ->
+  In e (entries s) -> e_topic e = tp -> ~ In (e_id e) (ids_of rest) ->
+  lookup (chans s) (e_chan e) = Some ch -> c_closed ch = false ->
+  (get_lastq s (e_id e) < npub s)%nat ->
+  (forall c mg q, queued s c mg q -> m_id mg = e_id e -> (S q < npub s)%nat) ->
+  Inv (set_chans s (update (chans s) (e_chan e)
+        {| c_cap := c_cap ch;
+           c_q := c_q ch ++ [({| m_id := e_id e; m_topic := tp; m_data := d |}, pred (npub s))];
+           c_closed := false |})) m.
+Proof.
+  intros s m t tp d rest pr e ch HI Hpc Hin Htp Hnr Hch Hop Hlq Hold.
+  set (mg0 := {| m_id := e_id e; m_topic := tp; m_data := d |}).
+  set (ch' := {| c_cap := c_cap ch; c_q := c_q ch ++ [(mg0, pred (npub s))]; c_closed := false |}).
+  set (X := set_chans s (update (chans s) (e_chan e) ch')).
+  destruct (i_fan _ _ HI _ _ _ _ _ Hpc) as [Hnd [Hincl [Hnp Hnth]]].
+  assert (Hq : forall c' mg q, queued X c' mg q ->
+            queued s c' mg q \/ (c' = e_chan e /\ mg = mg0 /\ q = pred (npub s))).
+  { intros c' mg q H. apply queued_update in H. destruct H as [[<- H]|[_ H]]; [|left; exact H].
+    cbn in H. apply in_app_or in H. destruct H as [H|[H|[]]].
+    - left. exists ch. tauto.
+    - right. inversion H. tauto. }
+  assert (Hcl : forall c', closed_in s c' -> closed_in X c').
+  { intros c' H. apply closed_update; [exact H|]. intros <-. destruct H as [ch0 [H1 H2]]. congruence. }
+  assert (He : e = mk (e_id e) tp (e_chan e)) by (destruct e; cbn in *; subst; reflexivity).
+  constructor; try (unchanged HI).
+  - intros c' mg q H. destruct (Hq _ _ _ H) as [H1|[-> [-> ->]]]; [exact (i_q _ _ HI _ _ _ H1)|].
+    cbn [npub X set_chans m_id m_topic mg0]. split; [lia|]. split; [|unfold get_lastq in *; cbn; lia].
+    rewrite <- He. apply (i_ent_alloc _ _ HI). exact Hin.
+  - intros c' ch0 H. cbn in H. rewrite lookup_update in H. destruct (e_chan e =? c') eqn:E.
+    + inversion H. cbn. apply qsorted_app; [exact (i_qsorted _ _ HI _ _ Hch)|].
+      apply Forall_forall. intros [mg q] Hx.
+      assert (Hqs : queued s (e_chan e) mg q) by (exists ch; tauto).
+      destruct (i_q _ _ HI _ _ _ Hqs) as [Hlt _]. unfold qR. cbn.
+      destruct (Nat.eq_dec q (pred (npub s))) as [->|Hne]; [|left; lia].
+      right. split; [reflexivity|]. intro Hid. pose proof (Hold _ _ _ Hqs Hid). lia.
+    + exact (i_qsorted _ _ HI c' ch0 H).
+  - intros t' tp' d' rest' pr' H id Hid. destruct (i_fanq _ _ HI t' tp' d' rest' pr' H id Hid) as [H1 H2].
+    split; [exact H1|]. intros c' mg q Hqq Hm. destruct (Hq _ _ _ Hqq) as [H3|[-> [-> ->]]]; [exact (H2 _ _ _ H3 Hm)|].
+    exfalso. cbn in Hm. subst id.
+    assert (t' = t).
+    { apply (only_holder _ _ t t' HI); [rewrite Hpc; reflexivity|]. change (get_pc X t') with (get_pc s t') in H. rewrite H. reflexivity. }
+    subst t'. change (get_pc X t) with (get_pc s t) in H. rewrite Hpc in H. inversion H. subst. exact (Hnr Hid).
+  - intro t'. refine (pend_ok_frame s m X m t' _ _ _ _ _ _ (i_pend _ _ HI t')); try reflexivity; try (intros; assumption); try lia.
+    exact Hcl.
+  - intros c' H. apply Hcl. exact (i_closed _ _ HI c' H).
+  - intros c' mg q H. destruct (Hq _ _ _ H) as [H1|[-> [-> ->]]]; [exact (i_pubs _ _ HI _ _ _ H1)|]. exact Hnth.
+  - intros id n H. destruct (i_dead _ _ HI id n H) as [D1 [D2 [D3 [D4 [D5 D6]]]]].
+    repeat split; try assumption. intros c' mg q Hqq Hm. destruct (Hq _ _ _ Hqq) as [H3|[-> [-> ->]]]; [exact (D6 _ _ _ H3 Hm)|].
+    exfalso. cbn in Hm. subst id. apply D1. apply in_ids_of. exists e. tauto.
+Qed.
+
+Lemma inv_fan_step : forall s m t tp d e rest pr, Inv s m -> get_pc s t = PubFan tp d (e :: rest) pr ->
+  snd (step_task s t) = [] /\ Inv (fst (step_task s t)) m.
+Proof.
+  intros s m t tp d e rest pr HI Hpc. unfold step_task. rewrite Hpc. cbn [acquired].
+  destruct (i_fan _ _ HI _ _ _ _ _ Hpc) as [Hnd [Hincl [Hnp Hnth]]].
+  destruct (e_topic e =? tp) eqn:Etp.
+  2:{ cbn [fst snd]. split; [reflexivity|]. apply (inv_fan_move s m t tp d e rest pr pr HI Hpc); [apply incl_refl|]. intros; lia. }
+  assert (Htp : e_topic e = tp) by lia.
+  unfold try_send. destruct (lookup (chans s) (e_chan e)) as [ch|] eqn:Ech.
+  2:{ cbn [fst snd]. split; [reflexivity|]. apply (inv_fan_move s m t tp d e rest pr _ HI Hpc); [apply incl_appl; apply incl_refl|].
+      intros _ _. apply in_or_app. right. left. reflexivity. }
+  destruct (c_closed ch) eqn:Ecl.
+  { cbn [fst snd]. split; [reflexivity|]. apply (inv_fan_move s m t tp d e rest pr _ HI Hpc); [apply incl_appl; apply incl_refl|].
+    intros _ _. apply in_or_app. right. left. reflexivity. }
+  assert (Hncl : ~ closed_in s (e_chan e)) by (intros [ch0 [H1 H2]]; congruence).
+  assert (HI1 : Inv (set_pc s t (PubFan tp d rest pr)) m).
+  { apply (inv_fan_move s m t tp d e rest pr pr HI Hpc); [apply incl_refl|]. intros _ H. destruct (Hncl H). }
+  destruct (blen (c_q ch) <? c_cap ch); cbn [fst snd]; (split; [reflexivity|]); [|exact HI1].
+  destruct (i_fanq _ _ HI _ _ _ _ _ Hpc (e_id e) (or_introl eq_refl)) as [Hlq Hold].
+  pose proof (inv_enqueue (set_pc s t (PubFan tp d rest pr)) m t tp d rest pr e ch HI1) as H.
+  apply H; clear H.
+  - erewrite gp_eq by reflexivity. reflexivity.
+  - apply Hincl. left. reflexivity.
+  - exact Htp.
+  - cbn in Hnd. inversion Hnd. assumption.
+  - exact Ech.
+  - exact Ecl.
+  - exact Hlq.
+  - exact Hold.
+Qed.
